@@ -777,7 +777,6 @@ func ruleNilEntryDiscipline(c *core.Ctx) {
 	}
 }
 
-
 func selRootIdent(sel *ast.SelectorExpr) *ast.Ident {
 	if id, ok := ast.Unparen(sel.X).(*ast.Ident); ok {
 		return id
